@@ -372,6 +372,7 @@ func runSession(s *Session, quiet time.Duration, seed int64, callTimeout time.Du
 	}
 
 	curRules := append([]Rule{}, s.Rules...)
+	var kept []keptRes
 	for ci := range s.Calls {
 		c := &s.Calls[ci]
 		for _, u := range c.Pre {
@@ -427,71 +428,105 @@ func runSession(s *Session, quiet time.Duration, seed int64, callTimeout time.Du
 				os.Exit(2)
 			}
 		}
-		rules = make([]map[string]interface{}, 0, len(curRules))
-		for _, r := range curRules {
-			rules = append(rules, map[string]interface{}{"name": r.Name, "sal": r.Sal})
+		// the arguments as the caller wrote them (the engine must not change the caller's slices: with rep > 0 the
+		// very same slices are handed in again and the log keeps describing the call by the pristine copy)
+		pristineNames := append([]string{}, c.Names...)
+		pristineDag := make([][]string, len(c.Dag))
+		for i := range c.Dag {
+			pristineDag[i] = append([]string{}, c.Dag[i]...)
 		}
-		o := obs.New(s.Gated, quiet, seed+int64(s.ID)*131+int64(ci))
-		o.Burst = s.Burst
-		o.Silent = s.Silent
-		ts := map[string]bool{}
-		for _, n := range c.TagSet {
-			ts[n] = true
-		}
-		stag.StopTag = false
-		cur = &runCtx{o: o, beh: c.Beh, tagset: ts, callNo: ci + 1, idx: idx, stag: stag}
-		all = append(all, obs.Event{"ev": "begin", "method": c.Method, "rules": rules, "b": c.B,
-			"names": nz(c.Names), "n": c.N, "m": c.M, "dag": nzd(c.Dag)})
-		if s.Gated {
-			o.StartController()
-		}
-		done := make(chan outcome, 1)
-		go func() {
-			var oc outcome
-			defer func() {
-				if r := recover(); r != nil {
-					oc.panicv = r
+		for rep := 0; rep <= c.Rep; rep++ {
+			rules = make([]map[string]interface{}, 0, len(curRules))
+			for _, r := range curRules {
+				rules = append(rules, map[string]interface{}{"name": r.Name, "sal": r.Sal})
+			}
+			o := obs.New(s.Gated, quiet, seed+int64(s.ID)*131+int64(ci))
+			o.Burst = s.Burst
+			o.Silent = s.Silent
+			ts := map[string]bool{}
+			for _, n := range c.TagSet {
+				ts[n] = true
+			}
+			stag.StopTag = false
+			cur = &runCtx{o: o, beh: c.Beh, tagset: ts, callNo: ci + 1, idx: idx, stag: stag}
+			all = append(all, obs.Event{"ev": "begin", "method": c.Method, "rules": rules, "b": c.B,
+				"names": nz(pristineNames), "n": c.N, "m": c.M, "dag": nzd(pristineDag)})
+			if s.Gated {
+				o.StartController()
+			}
+			done := make(chan outcome, 1)
+			go func() {
+				var oc outcome
+				defer func() {
+					if r := recover(); r != nil {
+						oc.panicv = r
+					}
+					done <- oc
+				}()
+				if pool != nil {
+					oc.err, oc.keys = dispatch.PoolCall(pool, c, stag, map[string]interface{}{"stag": stag})
+				} else {
+					oc.err = dispatch.EngineCall(g, rb, c, stag)
+					oc.keys, _ = g.GetRulesResultMap()
 				}
-				done <- oc
 			}()
-			if pool != nil {
-				oc.err, oc.keys = dispatch.PoolCall(pool, c, stag, map[string]interface{}{"stag": stag})
-			} else {
-				oc.err = dispatch.EngineCall(g, rb, c, stag)
-				oc.keys, _ = g.GetRulesResultMap()
+			var oc outcome
+			select {
+			case oc = <-done:
+			case <-time.After(callTimeout):
+				o.StopController()
+				all = append(all, o.Take()...)
+				all = append(all, obs.Event{"ev": "timeout"})
+				return all, false
 			}
-		}()
-		var oc outcome
-		select {
-		case oc = <-done:
-		case <-time.After(callTimeout):
+			// the return event takes its place in the log before any gate is opened again
+			ret := obs.Event{"ev": "return", "err": oc.err != nil, "keys": keysOf(oc.keys), "panic": oc.panicv != nil, "twin": c.Twin}
+			if oc.err != nil {
+				msg := oc.err.Error()
+				if len(msg) > 200 {
+					msg = msg[:200]
+				}
+				ret["msg"] = msg
+			}
+			if oc.panicv != nil {
+				ret["panicmsg"] = fmt.Sprint(oc.panicv)
+			}
+			o.Emit(ret)
 			o.StopController()
-			all = append(all, o.Take()...)
-			all = append(all, obs.Event{"ev": "timeout"})
-			return all, false
-		}
-		// the return event takes its place in the log before any gate is opened again
-		ret := obs.Event{"ev": "return", "err": oc.err != nil, "keys": keysOf(oc.keys), "panic": oc.panicv != nil, "twin": c.Twin}
-		if oc.err != nil {
-			msg := oc.err.Error()
-			if len(msg) > 200 {
-				msg = msg[:200]
+			if !o.Drain(callTimeout) {
+				all = append(all, o.Take()...)
+				all = append(all, obs.Event{"ev": "timeout"})
+				return all, false
 			}
-			ret["msg"] = msg
-		}
-		if oc.panicv != nil {
-			ret["panicmsg"] = fmt.Sprint(oc.panicv)
-		}
-		o.Emit(ret)
-		o.StopController()
-		if !o.Drain(callTimeout) {
 			all = append(all, o.Take()...)
-			all = append(all, obs.Event{"ev": "timeout"})
-			return all, false
+			kept = append(kept, keptRes{len(kept) + 1, oc.keys, copyMap(oc.keys)})
 		}
-		all = append(all, o.Take()...)
+	}
+	// every result map handed back during the session must still be what it was when its call returned
+	for _, k := range kept {
+		same := len(k.live) == len(k.copy)
+		for kk, v := range k.copy {
+			if lv, ok := k.live[kk]; !ok || lv != v {
+				same = false
+			}
+		}
+		all = append(all, obs.Event{"ev": "frozen", "call": k.n, "same": same})
 	}
 	return all, true
+}
+
+type keptRes struct {
+	n    int
+	live map[string]interface{}
+	copy map[string]interface{}
+}
+
+func copyMap(m map[string]interface{}) map[string]interface{} {
+	c := map[string]interface{}{}
+	for k, v := range m {
+		c[k] = v
+	}
+	return c
 }
 
 func main() {
